@@ -238,6 +238,8 @@ inductive Op (K : Type)
   | append (c : Nat) (hs : List Nat)
   /-- `h.copy(dtype=dt)` -/
   | copy (h : Nat) (dt : Option DType)
+  /-- `copy.deepcopy(h)` / `pickle.loads(pickle.dumps(h))` (base.py:90-100, collection.py:222-227) -/
+  | deepcopy (h : Nat)
   /-- `-h` -/
   | neg (h : Nat)
   /-- `a <op> b` -/
@@ -314,20 +316,51 @@ def relinkAll (s : State K) (b : Nat) : List Nat → List Nat → Nat → State 
   | m :: ms, l :: ls, off => relinkAll (s.relink m ⟨b, off, l⟩) b ms ls (off + l)
   | _, _, _ => s
 
-/-- collection.py:101-134 for the final list of member objects `ms`: gather the flattened data of
-all members into one new array (fields in order, components row-major), create the collection
-object, re-link every member to its slice.  Collection id = `s.objs.length`. -/
-def linkColl (s : State K) (ms : List Nat) (grid : Nat) (dt : Option DType) :
-    Except Err (State K) :=
+/-- content of the new collection array: gathered from the members (`np.array(fields_data)`), or the
+copy of an existing collection array (deep copy) -/
+def collCells (s : State K) (os : List Obj) (src : Option (View × DType)) : List (Option K) :=
+  match src with
+  | none => os.flatMap (fun o => s.store.readView o.view)
+  | some (v, _) => s.store.readView v
+
+/-- dtype of the new collection array: `dtype=` if given, else `number_array`'s default (cdouble if
+any member is complex, otherwise double); kept as it is by a deep copy -/
+def collDType (s : State K) (os : List Obj) (src : Option (View × DType)) (dt : Option DType) :
+    DType :=
+  match src with
+  | none => dt.getD
+      (if os.any (fun o => (s.store.dtOf o.view.buf).isComplex) then .c128 else .f64)
+  | some (_, d) => d
+
+/-- collection.py:101-134 for the final list of member objects `ms`: one new array holding the
+flattened data of all members (fields in order, components row-major), the collection object,
+every member re-linked to its slice.  Collection id = `s.objs.length`.
+
+`src = none`: the constructor - the data are gathered from the members and the dtype is `dt` or
+derived from the members.  `src = some (v, d)`: `FieldCollection.__setstate__` (deep copy, pickle) -
+the new array is the copy of the old collection array (view `v`, dtype `d`) and the freshly copied
+members are re-linked to its slices (collection.py:222-227). -/
+def linkFrom (s : State K) (ms : List Nat) (grid : Nat) (src : Option (View × DType))
+    (dt : Option DType) : Except Err (State K) :=
   match getObjs s ms with
   | .error e => .error e
   | .ok os =>
-    let cells := os.flatMap (fun o => s.store.readView o.view)
-    let dtOut := dt.getD
-      (if os.any (fun o => (s.store.dtOf o.view.buf).isComplex) then .c128 else .f64)
+    -- collection.py:79-88 and 105-110: at least one field, one grid, members are data fields
+    if os.isEmpty then .error .empty
+    else if os.any (fun o => o.grid != grid) then .error .gridMismatch
+    else if os.any (fun o => o.cls == .coll || o.cls == .raw) then .error .nested
+    else
+    let cells := collCells s os src
+    let dtOut := collDType s os src dt
+    -- the slices of the members tile the array (always true; keeps the model total)
+    if cells.length != (os.map (·.view.len)).sum then .error .badArg else
     let c : Obj := { cls := .coll, grid := grid, ncomp := (os.map (·.ncomp)).sum,
                      view := ⟨0, 0, 0⟩, members := ms }
     .ok (relinkAll (s.allocObj cells dtOut c) s.store.next ms (os.map (·.view.len)) 0)
+
+/-- the constructor proper -/
+abbrev linkColl (s : State K) (ms : List Nat) (grid : Nat) (dt : Option DType) :
+    Except Err (State K) := linkFrom s ms grid none dt
 
 /-- `FieldCollection.__init__` -/
 def mkColl (s : State K) (hs : List Nat) (copyFields : Bool) (dt : Option DType) :
@@ -527,6 +560,19 @@ def negate (G : List Grid) (s : State K) (o : Obj) : Except Err (State K) :=
     | .ok os => linkColl (mapEach (mkNeg G) s os).1 (mapEach (mkNeg G) s os).2 o.grid none
   else .ok (s.allocObj (mkNeg G s.store o).1 (mkNeg G s.store o).2 { o with members := [] })
 
+/-- `copy.deepcopy(h)` / unpickling: every array of the object is duplicated (dtype kept); for a
+collection the member objects are deep-copied first and then re-linked to the slices of the
+copied collection array by `__setstate__` -/
+def deepcopy (s : State K) (o : Obj) : Except Err (State K) :=
+  if o.cls == .raw then .error .badArg
+  else if o.cls == .coll then
+    match getObjs s o.members with
+    | .error e => .error e
+    | .ok os =>
+      linkFrom (mapEach mkCopy s os).1 (mapEach mkCopy s os).2 o.grid
+        (some (o.view, s.store.dtOf o.view.buf)) none
+  else .ok (copyField s o (s.store.dtOf o.view.buf))
+
 /-- `vector[c]` / `tensor[i, j]`: a new scalar field object looking at block `c` of the padded
 array (vectorial.py:165-179, tensorial.py:149-156) -/
 def compObj (o : Obj) (c : Nat) : Obj :=
@@ -583,6 +629,10 @@ def step (G : List Grid) (s : State K) (op : Op K) : Except Err (State K) :=
     match getObj s h with
     | .error e => .error e
     | .ok o => copyAny s o dt
+  | .deepcopy h =>
+    match getObj s h with
+    | .error e => .error e
+    | .ok o => deepcopy s o
   | .neg h =>
     match getObj s h with
     | .error e => .error e
